@@ -42,8 +42,11 @@ class Harness:
         self.mt_in_flight = 0
         self.max_mt_in_flight = 0
 
+    interrupt_sent = False  # set by harnesses that send a real SIGINT to the thread that called run
+
     def reset(self):
         with self.lock:
+            self.interrupt_sent = False
             self.seq = 0
             self.events = []
             self.in_flight = 0
